@@ -218,6 +218,7 @@ def c03(pid, tier, t0):
 def c14(pid, tier, t0):
     exe = nv.build_harness("c14_subst", "asan", ["c14_subst.c"], wraps=WRAPS)
     res = nv.run_shards(exe, ["tier=" + tier, "deadline=%d" % dl(tier)], nv.NCPU, dl(tier) + 120)
+    nv.conformance(res)
     return nv.finish(pid, tier, t0, res, {
         "rule": "32 curated patterns (literals, anchors, word boundaries, empty-matching, groups, alternation, bounds) and all pattern ASTs of <= 2 nodes x 12 replacements "
                 "(empty, literal, \\0 \\1 \\2 \\9, [\\1\\2], \\\\, \\/, \\x, multi-byte) x g on/off x ic on/off x every line of <= line_len characters over {a,b,space,U+00E9,A} placed between two guard lines; "
@@ -268,6 +269,7 @@ def c06(pid, tier, t0):
 def c15(pid, tier, t0):
     exe = nv.build_harness("c15_global", "asan", ["c15_global.c"], wraps=WRAPS)
     res = nv.run_shards(exe, ["tier=" + tier, "deadline=%d" % dl(tier)], nv.NCPU, dl(tier) + 120)
+    nv.conformance(res)
     return nv.finish(pid, tier, t0, res, {
         "rule": "patterns {a, ^$, b$, .} x {g, g!, v} x ranges {none, %, 2,3, 2,$} x 18 command lists (d, -1d, +1d, .,+1d, s/a/b/, s/a/ab/g, pu a, 0pu a, i|x|., a|x|., c|x|., -1a|a|., d|pu, s/a/c/|-1d, "
                 "nested g/b/d, nested g/a/s/a/b/, y b|pu b, ka|'ad) x every buffer of 1..buffer_lines lines over the contents {a, b, ab, empty}; distinct_nontrivial = globals that change the buffer",
